@@ -40,13 +40,17 @@ BIN = ['AND', 'OR', 'XOR', 'NAND', 'NOR', 'NXOR', 'GT', 'LT', 'GEQ', 'LEQ']
 
 
 def gen_correlated(rng, k):
-    """cut leaves that are correlated asymmetrically (one implies the other) under a redundant cone: the
-    smaller replacement has to use the unreachable leaf vector as a don't-care"""
-    corr = rng.choice([('AND', 'AND'), ('OR', 'OR'), ('AND', 'AND'), ('GT', 'AND'), ('NOR', 'AND')])
+    """cut leaves that are correlated asymmetrically (one implies the other, through reconvergent but not
+    nested logic) under a redundant cone: the smaller replacement has to use the unreachable leaf vector as
+    a don't-care"""
+    fam = rng.choice(['AND', 'OR']) if k >= 6 else ['AND', 'OR'][k % 2]
     gates = [['a', 'INPUT', []], ['b', 'INPUT', []], ['c', 'INPUT', []],
-             ['x', corr[0], ['a', 'b']], ['y', corr[1], ['x', 'c']]]
-    if k == 0:
-        cone = [['p', 'GEQ', ['x', 'y']], ['q', 'LEQ', ['x', 'y']], ['n', 'NAND', ['p', 'q']]]
+             ['x', fam, ['a', 'b']], ['bc', fam, ['b', 'c']], ['y', fam, ['a', 'bc']]]
+    if k < 6:
+        # x XOR y written with three AIG gates; XOR needs three, so a two-gate answer exists only by using a don't-care row
+        cone = [[['p', 'GEQ', ['x', 'y']], ['q', 'LEQ', ['x', 'y']], ['n', 'NAND', ['p', 'q']]],
+                [['p', 'GT', ['x', 'y']], ['q', 'LT', ['x', 'y']], ['n', 'OR', ['p', 'q']]],
+                [['p', 'NAND', ['x', 'y']], ['q', 'OR', ['x', 'y']], ['n', 'AND', ['p', 'q']]]][k // 2]
     else:
         avail = ['x', 'y']
         cone = []
@@ -57,9 +61,12 @@ def gen_correlated(rng, k):
             cone.append(['t%d' % i, rng.choice(BIN), ops])
             avail.append('t%d' % i)
     gates += cone
-    outs = [cone[-1][0]] + (['y'] if rng.random() < 0.3 else [])
+    outs = [cone[-1][0]] + (['y'] if (k >= 6 and rng.random() < 0.3) else [])
     j = {'gates': gates, 'inputs': ['a', 'b', 'c'], 'outputs': outs, 'blocks': []}
-    return realize(j), rng.choice(['AIG', 'AIG', 'XAIG']), {'max_subcircuit_size': 9, 'cut_size': 5, 'cut_limit': 25, 'solver_time_limit_sec': 15}, 'all', 0
+    params = {'max_subcircuit_size': 9, 'cut_size': 5, 'cut_limit': 25, 'solver_time_limit_sec': 15}
+    if k >= 6 and rng.random() < 0.3:
+        params = {'max_subcircuit_size': 4, 'cut_size': 3, 'cut_limit': 25, 'solver_time_limit_sec': 0}
+    return realize(j), ('AIG' if k < 6 else rng.choice(['AIG', 'AIG', 'XAIG'])), params, 'all', 0
 
 
 def run_minimize(cj, basis, params, cutmode, cutseed, validate):
